@@ -441,6 +441,9 @@ def enumerate_blocking(tier):
                   ["map_async", "buffer"], ["buffer"], ["delay"], ["rate_limit", "map_async"]):
         for start in (False, True):
             yield {"blocking": True, "chain": chain, "start": start}
+    # the loop handed over explicitly, no mode declared anywhere: still a blocking pipeline
+    for chain in (["buffer"], ["map_async"], ["map"], []):
+        yield {"blocking": True, "chain": chain, "start": False, "explicit_loop": True}
 
 
 def execute_blocking(case):
@@ -453,10 +456,12 @@ def execute_blocking(case):
     async def job(x):
         job_threads.append(threading.get_ident())
         return x + 1
-    src = Stream()
+    src = Stream(loop=score.get_io_loop(False)) if case.get("explicit_loop") else Stream()
     node, n_jobs = src, 0
     for k in case["chain"]:
-        if k == "map_async":
+        if k == "map":
+            node = node.map(lambda x: x)
+        elif k == "map_async":
             node = node.map_async(job)
             n_jobs += 1
         elif k == "buffer":
@@ -467,7 +472,8 @@ def execute_blocking(case):
             node = node.rate_limit(0.001)
     sk = node.sink(lambda x: seen.append((x, threading.get_ident())))
     v = []
-    what = "Stream()." + ".".join(case["chain"]) + ".sink" + (" + start()" if case["start"] else "")
+    what = ("Stream(loop=L)." if case.get("explicit_loop") else "Stream().") + \
+        ".".join(case["chain"] + ["sink"]) + (" + start()" if case["start"] else "")
     loop = node.loop
     tid, ev = [], threading.Event()
     loop.add_callback(lambda: (tid.append(threading.get_ident()), ev.set()))
